@@ -25,6 +25,12 @@ CLAIMED = {
  "C04": ("rapid property-based testing (structured + extreme-field + arbitrary inputs) with reflection-driven method sweeps on every accepted value; exhaustive sweep of all 65,536 type codes; native coverage-guided fuzzing (thorough)",
          "No exported parser/decoder/constructor panics or exceeds a 20 s (then 60 s) deadline on ~120k generated inputs per quick run (up to 140 KiB, counts/lengths at extremes, 1000-pair mappings), and every exported method of every accepted value (swept two levels deep by reflection, ~4M calls) returns; all 65,540 type codes x 14 type-taking functions x 4 data shapes enumerated completely. The hang clause is decided only as 'no call exceeded a generous wall deadline twice'.",
          "Panics are caught per call by recover; the Go runtime and reflect are trusted. AddAddress (a mutator taking a caller-supplied pointer) is not called by the sweep; methods whose parameters have no generator are listed in the evidence notes.", "DESIGN.md 5/C04"),
+ "C10": ("exhaustive enumeration of all 65,536 signing and crypto type codes through every size lookup and behavioural framing probe, compared with the specification table (differential) + rapid-generated identities for the key-block layout",
+         "Part 1 is complete for the 16-bit code space each run (every lookup x every code, mutual agreement and agreement with the spec table for defined codes); part 2 checks offsets of key/padding bytes for all 30 supported pairs exhaustively plus ~20k generated identities through parser and constructor.",
+         "internal/model's tables are transcribed from common.md; reserved codes (GOST 9/10, MLDSA 12-20, experimental) are only required to be treated consistently.", "DESIGN.md 5/C10"),
+ "C20": ("exhaustive reflection sweep of every (exported type, argument-free method) pair on zero values (types discovered from /repo's sources at check time) + rapid-generated truncations/mutations for failed-parse results",
+         "Domain A is complete each run (29 types today, every exported argument-free method of the pointer method set); domain B sweeps the value returned together with an error at every truncation point of ~4k generated encodings (~12M method calls). Verification methods must never report success on such values.",
+         "recover() catches panics per call; reflection calls pointer-receiver and value-receiver methods through new(T).", "DESIGN.md 5/C20"),
 }
 checks = []
 for pid in ids:
